@@ -300,6 +300,7 @@ class Model:
 
         saved_tc = ycat.treecorr
         ycat.treecorr = wl.SeededTreecorr(case["gen_seed"] % 9973)
+        writer_errors: list[str] = []
         try:
             if workers <= 1:
                 with sequential_mode():
@@ -312,6 +313,7 @@ class Model:
                         v = sim.run(create)
                     if v != Verdict.COMPLETE:
                         raise HistoryViolation(dict(property=PROP, failing_rule="from_random", outcome=v), f"{v}: {sim.blocked_report}")
+                    writer_errors.extend(str(e) for e in sim.objects.get("process_errors", []))
                     if sim.main.exc is not None:
                         raise sim.main.exc
                     cat = sim.main.result
@@ -319,9 +321,10 @@ class Model:
                     sim.cleanup()
         except HistoryViolation:
             raise
-        except ValueError as err:
-            if "contains no data" in str(err) and mode != "apply":
-                return  # generated centre without objects: legal refusal
+        except Exception as err:  # noqa: BLE001 - any library exception on fault-free input
+            text = str(err) + " | " + " | ".join(writer_errors)
+            if "contains no data" in text and mode != "apply":
+                return  # generated centre without objects: legal refusal (raised in the writer process)
             raise HistoryViolation(
                 dict(property=PROP, failing_rule="from_random", outcome="raises", exc=type(err).__name__),
                 f"from_random({size}, chunk={chunksize}, workers={workers}, {mode}) raised {err!r}",
